@@ -1135,3 +1135,60 @@ def transpose(ctx, a):
     a = snap(a)
     n = a.ndim
     return Arr(tuple(reversed(a.shape)), lambda idx: a.at(tuple(reversed(idx))), a.kind, origin=a.origin, root=a.root)
+
+
+# ----------------------------------------------------------------------------------------------
+# flat vectors indexed by cell number (right-hand sides): linear combinations are kept symbolic
+# ----------------------------------------------------------------------------------------------
+def is_flatvec(x):
+    if isinstance(x, Box):
+        if any(w[0][0] == 'cellscatter' for w in x.log):
+            return True
+        x = x.cur
+    if isinstance(x, Arr):
+        return bool(x.label) and x.label[0] in ('scattered', 'flatvec', 'veclin')
+    return False
+
+
+def _clone_vec(x):
+    if isinstance(x, Box):
+        b = Box(x.cur)
+        b.log = list(x.log)
+        b.base_zero = x.base_zero
+        return b
+    return x
+
+
+def veclin(ctx, op, a, b):
+    """a (+|-) b for flat vectors, scalar * vector, vector / scalar -> Arr labelled ('veclin', [(coef, comp)])"""
+    import ast as _ast
+    t = type(op)
+
+    def comps(x, c):
+        x0 = x.cur if isinstance(x, Box) else x
+        if isinstance(x0, Arr) and x0.label and x0.label[0] == 'veclin' and not (isinstance(x, Box) and x.log):
+            return [(c * k, v) for k, v in x0.label[1]]
+        return [(c, _clone_vec(x))]
+    if t in (_ast.Add, _ast.Sub) and is_arraylike(a) and is_arraylike(b):
+        sa, sb = snap(a), snap(b)
+        if sa.ndim != 1 or sb.ndim != 1:
+            return None
+        if not (sa.shape[0] - sb.shape[0]).is_zero():
+            raise AbstractRaise('ValueError', 'operands could not be broadcast together')
+        parts = comps(a, ONE) + comps(b, ONE if t is _ast.Add else Rat.const(-1))
+        shape = sa.shape
+    elif t is _ast.Mult and isinstance(a, Rat) and is_arraylike(b):
+        parts = comps(b, a)
+        shape = snap(b).shape
+    elif t is _ast.Mult and isinstance(b, Rat) and is_arraylike(a):
+        parts = comps(a, b)
+        shape = snap(a).shape
+    elif t is _ast.Div and isinstance(b, Rat) and is_arraylike(a):
+        parts = comps(a, 1 / b)
+        shape = snap(a).shape
+    else:
+        return None
+
+    def fn(idx):
+        raise AnalysisError("linear combination of flat vectors read by position")
+    return Arr(shape, fn, 'real', label=('veclin', parts))
